@@ -1,11 +1,111 @@
 import Tmcg.Driver
+import Tmcg.Model.Dkg
 /-
   Line-protocol handlers kept in a separate file so that they can be developed independently of
   Tmcg/Driver.lean.
+
+  Secret sharing and key generation (C15, harness/drv_dkg.cc), one line per run of n parties:
+    dkg.vss n t dealer p q g h sigma (STRONG WEAK DEV1 DEV2){n} => OUT{n}
+        OUT = sr|sigma_i|tau_i|[A_0..A_t]|rr|sigma_rec, or `-` (died in Share), or …|- (died in Reconstruct)
+    dkg.gen n t p q g h (STRONG WEAK DEV){n} => OUT{n}
+        OUT = 1|[QUAL]|x_i|xprime_i|[C_ik…]|y|[y_i]|[z_i]|[v_i]|ck, or 0|[QUAL]|x_i|xprime_i|[C_ik…], or `-`
+  STRONG: the values of the party's `tmcg_mpz_srandomm(·, q)` draws, WEAK: its protocol-level
+  `tmcg_mpz_wrandom_ui() % 2` draws, DEV: its deviation script (`-` = honest; items `S`, `Z,k`,
+  `O,j,k,d`, `I,j,k,d`, `A,g,k,d`, `D,g,k`, `N,g,k,v` joined by `;`).
 -/
 namespace Tmcg.DriverDkg
 open Tmcg Tmcg.Driver
 
-def handlers : List (String × Handler) := []
+def pDevItem (d : Dkg.Dev) (item : String) : Option Dkg.Dev :=
+  match item.splitOn "," with
+  | ["S"] => some { d with sfb := true }
+  | ["Z", k] => do let k ← pNat k; some { d with silent := some k }
+  | ["O", j, k, v] => do
+    let j ← pNat j; let k ← pNat k; let v ← pInt v
+    some { d with po := d.po ++ [(j, k, v)] }
+  | ["I", j, k, v] => do
+    let j ← pNat j; let k ← pNat k; let v ← pInt v
+    some { d with pi := d.pi ++ [(j, k, v)] }
+  | ["A", g, k, v] => do
+    let g ← pNat g; let k ← pNat k; let v ← pInt v
+    some { d with ba := d.ba ++ [(g, k, v)] }
+  | ["D", g, k] => do let g ← pNat g; let k ← pNat k; some { d with bd := d.bd ++ [(g, k)] }
+  | ["N", g, k, v] => do
+    let g ← pNat g; let k ← pNat k; let v ← pInt v
+    some { d with bi := d.bi ++ [(g, k, v)] }
+  | _ => none
+
+def pDev (s : String) : Option Dkg.Dev :=
+  if s = "-" then some {} else (s.splitOn ";").foldlM pDevItem {}
+
+/-- `per` tokens for each of the `n` parties -/
+def pParties (per : Nat) : Nat → List String → Option (List Dkg.PartyIn)
+  | 0, [] => some []
+  | 0, _ => none
+  | n + 1, toks =>
+    match per, toks with
+    | 4, s :: w :: d1 :: d2 :: rest => do
+      let s ← pIntList s; let w ← pNatList w; let d1 ← pDev d1; let d2 ← pDev d2
+      let r ← pParties per n rest
+      some (⟨s, w, d1, d2⟩ :: r)
+    | 3, s :: w :: d1 :: rest => do
+      let s ← pIntList s; let w ← pNatList w; let d1 ← pDev d1
+      let r ← pParties per n rest
+      some (⟨s, w, d1, {}⟩ :: r)
+    | _, _ => none
+
+def showB (b : Bool) : String := if b then "1" else "0"
+def showOB : Option Bool → String
+  | some b => showB b
+  | none => "?"
+
+def showVss (P : Dkg.Party Dkg.VssSt) : String :=
+  match P.err with
+  | some e => s!"exc:{e}"
+  | none =>
+    match P.st.shareRet with
+    | none => "-"
+    | some sr =>
+      let head := s!"{showB sr}|{P.st.sigma_i}|{P.st.tau_i}|{showList P.st.A}|"
+      match P.st.recRet with
+      | none => head ++ "-"
+      | some rr => head ++ s!"{showB rr}|{P.st.recOut.getD (-1)}"
+
+def showGen (G : Dkg.Grp) (P : Dkg.Party Dkg.GenSt) : String :=
+  match P.err with
+  | some e => s!"exc:{e}"
+  | none =>
+    if P.fs.dead then "-"
+    else
+      let st := P.st
+      let flat : List Int := st.C.flatMap id
+      match P.status with
+      | .run => "?"
+      | .ret false => s!"0|{showList st.qual}|{st.x}|{st.xp}|{showList flat}"
+      | .ret true =>
+        let ck := match Dkg.genCheckKey G st with | .ok b => showB b | .error e => toString e
+        s!"1|{showList st.qual}|{st.x}|{st.xp}|{showList flat}|{st.y}|{showList st.yi}|{showList st.z}|{showList st.vi}|{ck}"
+
+def hVss : Handler
+  | n :: t :: dealer :: p :: q :: g :: h :: sigma :: rest => do
+    let n ← pNat n; let t ← pNat t; let dealer ← pNat dealer
+    let p ← pInt p; let q ← pInt q; let g ← pInt g; let h ← pInt h; let sigma ← pInt sigma
+    let ins ← pParties 4 n rest
+    some (match Dkg.mkGrp p q g h with
+      | .error e => toString e
+      | .ok G => " ".intercalate ((Dkg.runVss G n t dealer sigma ins).map showVss))
+  | _ => none
+
+def hGen : Handler
+  | n :: t :: p :: q :: g :: h :: rest => do
+    let n ← pNat n; let t ← pNat t
+    let p ← pInt p; let q ← pInt q; let g ← pInt g; let h ← pInt h
+    let ins ← pParties 3 n rest
+    some (match Dkg.mkGrp p q g h with
+      | .error e => toString e
+      | .ok G => " ".intercalate ((Dkg.runGen G n t ins).map (showGen G)))
+  | _ => none
+
+def handlers : List (String × Handler) := [("dkg.vss", hVss), ("dkg.gen", hGen)]
 
 end Tmcg.DriverDkg
